@@ -799,7 +799,6 @@ Handler::ArgResult
       handleIdentifiedArg( p_arg_hdl, key);
 
       auto  subArgHandler = static_cast< detail::TypedArgSubGroup*>( p_arg_hdl)->obj();
-      ++ai;
 
       // the sub-group evaluates words of the same source: values from a file
       // or the environment variable don't count against the cardinality there
@@ -809,8 +808,11 @@ Handler::ArgResult
       subArgHandler->mReadMode = mReadMode;
 
       // we may only advance the main iterator if the argument is (still)
-      // handled by the sub-argument
+      // handled by the sub-argument: it stays on the last word that was
+      // consumed, which is the sub-group argument itself when the sub-group
+      // handler takes none of the following words
       auto  subAI( ai);
+      ++subAI;
       while ((subAI != end)
              && (subArgHandler->evalSingleArgument( subAI, end) == ArgResult::consumed))
       {
